@@ -1442,14 +1442,37 @@ void generate(const std::string &prop, Rng &wl, Rng &fl, Case &c)
     for (int ph = 0; ph < phases; ++ph)
     {
       int budget = max_queue;
+      // sometimes an impatient flush (small timeout: it may give up while the worker sits in a
+      // slow Export) in the middle of the phase's production; the phase still ends with a flush
+      // that waits without limit, so "completed flush" stays literal and the phase total stays
+      // within max_queue_size
+      bool impatient = wl.chance(0.3);
+      std::vector<int> second(nprod, 0);
       for (int p = 0; p < nprod; ++p)
       {
         int n = (int)wl.range(0, budget);
         if (p == nprod - 1 && wl.chance(0.5))
           n = budget;  // bias to exactly max_queue_size records in the phase
         budget -= n;
-        for (int i = 0; i < n && kcount[p] < 12; ++i)
+        int first = impatient ? (int)wl.range(0, n) : n;
+        second[p] = n - first;
+        for (int i = 0; i < first && kcount[p] < 12; ++i)
           prods[p].ops.push_back({OP_PRODUCE, kcount[p]++, 0, 0, 0});
+      }
+      if (impatient)
+      {
+        for (int p = 0; p < nprod; ++p)
+          prods[p].ops.push_back({OP_BARRIER, bid, 0, 0, 0});
+        ctl.ops.push_back({OP_BARRIER, bid, 0, 0, 0});
+        ++bid;
+        ctl.ops.push_back({OP_FLUSH, 1, 0, 0, 0});
+        for (int p = 0; p < nprod; ++p)
+          prods[p].ops.push_back({OP_BARRIER, bid, 0, 0, 0});
+        ctl.ops.push_back({OP_BARRIER, bid, 0, 0, 0});
+        ++bid;
+        for (int p = 0; p < nprod; ++p)
+          for (int i = 0; i < second[p] && kcount[p] < 12; ++i)
+            prods[p].ops.push_back({OP_PRODUCE, kcount[p]++, 0, 0, 0});
       }
       for (int p = 0; p < nprod; ++p)
         prods[p].ops.push_back({OP_BARRIER, bid, 0, 0, 0});
